@@ -21,7 +21,10 @@ import (
 	"encoding/json"
 	"errors"
 	"fmt"
+	"os"
 	"runtime"
+	"runtime/debug"
+	"strconv"
 	"strings"
 	"sync"
 	"sync/atomic"
@@ -65,7 +68,8 @@ const (
 	c13DisposeAgain  = 28
 	c13ForceAgain    = 29
 	c13Index         = 30
-	c13KindMax       = 30
+	c13AddP          = 32 // Add1(C), also parked at pq:popped (needs that point in /repo)
+	c13EvalP         = 33 // Eval, also parked at pq:popped
 )
 
 // result codes (shared with Conc/Dispose.v)
@@ -137,6 +141,9 @@ type c13Mach struct {
 func (x *c13Mach) notePanic(kind int, r any) {
 	x.pmu.Lock()
 	defer x.pmu.Unlock()
+	if os.Getenv("C13_STACK") != "" {
+		fmt.Fprintf(os.Stderr, "PANIC k%d: %v\n%s\n", kind, r, debug.Stack())
+	}
 	s := fmt.Sprint(r)
 	if len(s) > 90 {
 		s = s[:90]
@@ -216,7 +223,7 @@ func (x *c13Mach) call(kind int) (res int, ch <-chan struct{}) {
 	case c13StateCtx:
 		ctx := m.NewStateCtx("B")
 		return chanRes(ctx.Done())
-	case c13Add:
+	case c13Add, c13AddP:
 		return c13Res(m.Add1("C", nil)), nil
 	case c13Remove:
 		return c13Res(m.Remove1("B", nil)), nil
@@ -240,7 +247,7 @@ func (x *c13Mach) call(kind int) (res int, ch <-chan struct{}) {
 		return c13B(m.Has1("B")), nil
 	case c13IsErr:
 		return c13B(m.IsErr()), nil
-	case c13Eval:
+	case c13Eval, c13EvalP:
 		return c13B(m.Eval("c13", func() {}, nil)), nil
 	case c13Tick:
 		return c13Z(int(m.Tick("B"))), nil
@@ -349,7 +356,18 @@ func c13Exec(in *C13Input) (obs *C13Obs) {
 
 	if in.Mode == 0 {
 		gate := NewGate(n)
-		m.VerifSetSched(gate.Point)
+		m.VerifSetSched(func(point string) {
+			if point == "pq:popped" {
+				// only the goroutines of the kinds that ask for it park here
+				gate.mu.Lock()
+				w, ok := gate.workers[goid()]
+				gate.mu.Unlock()
+				if !ok || (in.Threads[w] != c13AddP && in.Threads[w] != c13EvalP) {
+					return
+				}
+			}
+			gate.Point(point)
+		})
 		done := make([]bool, n)
 		parked := make([]bool, n)
 		stuck := make([]bool, n)
@@ -618,6 +636,24 @@ func c13Coq(in *C13Input, obs *C13Obs) string {
 
 func init() { register("C13", runC13) }
 
+// c13HasPopped reports whether /repo has the schedule point pq:popped
+// (between the queue shift and newTransition in processQueue).
+func c13HasPopped() bool {
+	m := am.New(context.Background(), am.Schema{"A": {}}, &am.Opts{Id: "c13probe"})
+	seen := false
+	m.VerifSetSched(func(point string) {
+		if point == "pq:popped" {
+			seen = true
+		}
+	})
+	m.Add1("A", nil)
+	m.VerifSetSched(nil)
+	m.DisposeForce()
+	return seen
+}
+
+var c13Popped bool
+
 // program length of a thread kind, in schedule entries
 func c13Len(kind int) int {
 	switch kind {
@@ -629,6 +665,10 @@ func c13Len(kind int) int {
 		return 11
 	case c13Eval:
 		return 7
+	case c13AddP:
+		return 12
+	case c13EvalP:
+		return 8
 	}
 	return 1
 }
@@ -676,9 +716,15 @@ func c13Gen(r *Rng, gated bool) *C13Input {
 	}
 	if r.Chance(55) {
 		// the workload goroutine: a mutation or an Eval
-		if r.Chance(65) {
+		pp := c13Popped && r.Chance(60)
+		switch {
+		case r.Chance(65) && pp:
+			in.Threads = append(in.Threads, c13AddP)
+		case r.Chance(65):
 			in.Threads = append(in.Threads, c13Add)
-		} else {
+		case pp:
+			in.Threads = append(in.Threads, c13EvalP)
+		default:
 			in.Threads = append(in.Threads, c13Eval)
 		}
 	}
@@ -760,6 +806,26 @@ func c13Landings() []*C13Input {
 			ret = append(ret, in)
 		}
 	}
+	// a mutation / an eval in flight, parked at pq:popped when the disposal reaches stage st
+	if c13Popped {
+		for _, k := range []int{c13AddP, c13EvalP} {
+			for st := 1; st <= 5; st++ {
+				for _, handlers := range []bool{false, true} {
+					pre := 6 // actions up to pq:popped
+					if k == c13EvalP {
+						pre = 5
+					}
+					in := &C13Input{Handlers: handlers, Pre: []int{c13When, c13WhenQueue}, NDisp: 1,
+						Threads: []int{c13Dispose, k}, Post: []int{c13Add}}
+					in.Schedule = append(in.Schedule, rep(1, pre)...)
+					in.Schedule = append(in.Schedule, rep(0, st)...)
+					in.Schedule = append(in.Schedule, rep(1, c13Len(k)-pre)...)
+					in.Schedule = append(in.Schedule, rep(0, 5-st)...)
+					ret = append(ret, in)
+				}
+			}
+		}
+	}
 	// Eval in flight: p actions of Eval, s stages of the disposal, Eval to the end, the rest of the disposal
 	for p := 0; p <= 7; p++ {
 		for st := 1; st <= 5; st++ {
@@ -785,11 +851,28 @@ func runC13(c *Ctx) error {
 		obs  *C13Obs
 	}
 	var items []*item
+	c13Popped = c13HasPopped()
 	cases, replayOnly := c.loadCases()
+	repeat := 1
+	if n, err := strconv.Atoi(os.Getenv("C13_REPEAT")); err == nil && n > 1 && replayOnly {
+		repeat = n // debugging aid: hunt a rare schedule of a whole-run replay
+	}
 	for _, cc := range cases {
-		var in C13Input
-		must(json.Unmarshal(cc.Input, &in))
-		items = append(items, &item{kind: "corpus:" + cc.Name, in: &in})
+		for i := 0; i < repeat; i++ {
+			var in C13Input
+			must(json.Unmarshal(cc.Input, &in))
+			needs := false
+			for _, k := range in.Threads {
+				if k == c13AddP || k == c13EvalP {
+					needs = true
+				}
+			}
+			if needs && !c13Popped {
+				out.Count("skipped_needs_pq_popped", cc.Name)
+				continue
+			}
+			items = append(items, &item{kind: "corpus:" + cc.Name, in: &in})
+		}
 	}
 	if !replayOnly {
 		// serial, goroutine-counting whole-run cases
@@ -866,6 +949,6 @@ func runC13(c *Ctx) error {
 		"whole-run cases: Dispose, twice, two concurrent, parent-context cancel, from inside a handler, amhelp.Dispose "+
 		"with DisposedHandlers, DisposeForce, with 0-2 background mutator goroutines; after disposal a sweep of up to 30 "+
 		"API calls with a 2 s bound each; distinct by (input, observation)",
-		map[string]any{"forced_schedule_steps": forced})
+		map[string]any{"forced_schedule_steps": forced, "has_pq_popped_point": c13Popped})
 	return nil
 }
